@@ -39,6 +39,38 @@ def _ast_keywords(P: Project, mod: str, line: int, name: str) -> Set[str]:
     return out
 
 
+_LOG_METHODS = {"debug", "info", "warning", "warn", "error", "exception", "critical", "log"}
+
+
+def _only_logged(P: Project, mod: str, line: int, name: str) -> bool:
+    """the dump call at that position is an argument of a logging call and nothing else (its result never reaches the wire) —
+    decided on the source text, which is what the type checker's positions refer to"""
+    m = P.modules.get(mod)
+    if m is None:
+        return False
+    try:
+        tree = ast.parse(m.src)
+    except SyntaxError:
+        return False
+    parents = {}
+    for x in ast.walk(tree):
+        for c_ in ast.iter_child_nodes(x):
+            parents[id(c_)] = x
+    hits = [n for n in ast.walk(tree) if isinstance(n, ast.Call) and isinstance(n.func, ast.Attribute) and n.func.attr == name.split(".")[-1] and getattr(n, "lineno", None) == line]
+    if not hits:
+        return False
+    for n in hits:
+        par = parents.get(id(n))
+        # directly an argument, or inside an f-string / %-format that is the argument
+        while isinstance(par, (ast.FormattedValue, ast.JoinedStr)) or (isinstance(par, ast.BinOp) and isinstance(par.op, ast.Mod)) or isinstance(par, ast.Tuple):
+            par = parents.get(id(par))
+        if not (isinstance(par, ast.Call) and isinstance(par.func, ast.Attribute) and par.func.attr in _LOG_METHODS and isinstance(par.func.value, ast.Name) and par.func.value.id in ("logging", "logger", "log", "_logger", "LOGGER")):
+            return False
+        if not isinstance(parents.get(id(par)), ast.Expr):
+            return False
+    return True
+
+
 def fallback_extra_obligations(P, base, bfv, fb_class, pyd_cfg):
     """Unknown members under the fallback backend (shared by C10-R2 and C09): every path of its constructor helper that
     does not merge the leftover keys is taken only when there are none — or, if the backend reads `model_config['extra']`,
@@ -153,8 +185,18 @@ def check(P: Project, R: Report) -> None:
         if rt in ("Any", "None") or rt.startswith("Any"):
             key = (mod, fn)
             seen_any.add(key)
-            R.ob("R1", f"{mod}:{fn}: Any-typed receiver is a known, justified site", key in ANY_RECEIVERS, where,
-                 ANY_RECEIVERS.get(key, "a model_dump on an untyped receiver that is not in the justified table: its class may carry aliases"), sample=f"R1 {mod}:{fn} receiver Any — {ANY_RECEIVERS.get(key, 'UNJUSTIFIED')[:80]}")
+            logged = _only_logged(P, mod, c["line"], c["name"])
+            # a table entry follows its function under a new name or into another module (same unit, by fingerprint)
+            inl_ = getattr(P, "inliner", None)
+            for new_, old_ in (inl_.renamed.items() if inl_ is not None else []):
+                if new_.split(":")[0] == mod and new_.split(":")[1].split(".")[-1] == fn:
+                    okey = (old_.split(":")[0], old_.split(":")[1].split(".")[-1])
+                    if okey in ANY_RECEIVERS:
+                        key = okey
+            seen_any.add(key)
+            why_ = ANY_RECEIVERS.get(key) or ("its result is only formatted into a log record; not wire data" if logged else None)
+            R.ob("R1", f"{mod}:{fn}: Any-typed receiver is a known, justified site", why_ is not None, where,
+                 why_ or "a model_dump on an untyped receiver that is not in the justified table: its class may carry aliases", sample=f"R1 {mod}:{fn} receiver Any — {(why_ or 'UNJUSTIFIED')[:80]}")
             continue
         cls = classes_in(rt)
         aliased = [q for q in cls if q in closure]
